@@ -639,7 +639,7 @@ func (v *vocab) relevant(f *Func) bool {
 func (v *vocab) seq(rule string, cut bool) *seqRule {
 	return &seqRule{c: v.c, rule: rule, classify: v.classify, visit: v.visit, relevant: v.relevant, cutLoops: cut,
 		condSym: func(fr *Frame, token, rel string) string {
-			if v.wants(token + "=") || v.wants(token+"="+rel) {
+			if v.wants(token+"=") || v.wants(token+"="+rel) {
 				return token + "=" + rel
 			}
 			return ""
